@@ -59,12 +59,14 @@ def identM (d : Desc) : Option MVal := do
   let n ← mstr d.name
   pure (.arr [n, .int d.hash])
 
+def fieldM (p : PyStr × PyStr) : Option MVal := do
+  let a ← mstr p.1
+  let b ← mstr p.2
+  pure (MVal.arr [a, b])
+
 def descPayload (d : Desc) : Option MVal := do
   let n ← mstr d.name
-  let fs ← d.fields.mapM (fun (t, f) => do
-    let a ← mstr t
-    let b ← mstr f
-    pure (MVal.arr [a, b]))
+  let fs ← d.fields.mapM fieldM
   pure (.arr [n, .arr fs])
 
 mutual
@@ -193,13 +195,14 @@ def fitValues (d : Desc) (vals : List RV) : List RV :=
     | none => vals
   else vals
 
-def fieldsOf (xs : List RV) : Option (List (PyStr × PyStr)) :=
-  xs.mapM fun x => match x with
-    | .tuple [a, b] => do
-      let t ← strOf a
-      let n ← strOf b
-      pure (t, n)
-    | _ => none
+def fieldOf : RV → Option (PyStr × PyStr)
+  | .tuple [a, b] => do
+    let t ← strOf a
+    let n ← strOf b
+    pure (t, n)
+  | _ => none
+
+def fieldsOf (xs : List RV) : Option (List (PyStr × PyStr)) := xs.mapM fieldOf
 
 /-- `unpack_obj` given the already-unpacked `(subtype, value)` pair. -/
 def unpackEnvelope (reg : Registry) (sub : RV) (value : RV) : Except Err RV :=
@@ -247,7 +250,8 @@ def unpackEnvelope (reg : Registry) (sub : RV) (value : RV) : Except Err RV :=
   | _ => .error .badShape
 
 mutual
-  /-- value tree → Python value, running `ext_hook` bottom-up; fuel bounds the nesting of ext payloads -/
+  /-- value tree → Python value, running `ext_hook` bottom-up; fuel bounds the nesting (arrays, maps and the
+      msgpack documents inside extension payloads), not the width -/
   def fromM (reg : Registry) : Nat → MVal → Except Err RV
     | 0, _ => .error .invalid
     | fuel + 1, v =>
@@ -273,14 +277,37 @@ mutual
           | .ok _ => .error .badShape
           | .incomplete => .error .incomplete
           | .invalid => .error .invalid
+  termination_by fuel _ => (fuel, 0)
   def fromMList (reg : Registry) : Nat → List MVal → Except Err (List RV)
-    | 0, _ => .error .invalid
-    | _ + 1, [] => .ok []
-    | fuel + 1, x :: xs =>
+    | _, [] => .ok []
+    | fuel, x :: xs =>
       match fromM reg fuel x, fromMList reg fuel xs with
       | .ok a, .ok r => .ok (a :: r)
       | .error e, _ => .error e
       | _, .error e => .error e
+  termination_by fuel xs => (fuel, xs.length + 1)
+end
+
+/-! ### what a written object is expected to read back as (packed level) -/
+
+mutual
+  def rvOf : PV → RV
+    | .none => .none
+    | .bool b => .bool b
+    | .int i => .int i
+    | .float x => .float x
+    | .str s => .str s
+    | .bytes b => .bytes b
+    | .seq xs => .tuple (rvOfList xs)
+    | .dict xs => .dict (rvOfList xs)
+    | .dtUtc fs => .dt (fs.map fun n => RV.int (Int.ofNat n))
+    | .dtIso t => .dt [.str t]
+    | .record d vals => .record d (rvOfList vals)
+    | .grouped name ms => .grouped name (rvOfList ms)
+    | .desc d => .desc d.name d.fields
+  def rvOfList : List PV → List RV
+    | [] => []
+    | x :: xs => rvOf x :: rvOfList xs
 end
 
 end FlowRecord.Wire
